@@ -411,7 +411,7 @@ impl_clamp! {
 impl_eq_hue!(
     Cam16,
     Cam16Hue,
-    [lightness, chroma, brightness, colorfulness, saturation]
+    [lightness, chroma, brightness, colorfulness, saturation, hue]
 );
 impl_simd_array_conversion_hue!(
     Cam16,
